@@ -121,6 +121,8 @@ _run = run  # noqa: F821
 
 def run(ctx):
     from .. import solved as S
+    from .. import tables
+    tables.compare(ctx, what=("limits",))                            # applicable keys per class, LIMITS_DEFAULT: model vs live objects
     S.run_witnesses(ctx, per_case)                                   # noqa: F821
     S.run_cases(ctx, ctx.n(150, 4000), gen_fn, per_case, None, carrier="float")   # noqa: F821
     for k, v in ctx_stats.items():
